@@ -21,6 +21,7 @@ structure Rn where
   number : Bool         -- unicode.IsNumber
   digit : Bool          -- unicode.IsDigit
   lower : Nat           -- unicode.ToLower
+  space : Bool          -- unicode.IsSpace
 deriving DecidableEq, Repr
 
 /-- which of the keywords the parser asks about the (unquoted) token equals under `strings.EqualFold` -/
